@@ -4,6 +4,9 @@ EXTENDS LimitedStream
 D4 == <<97, 10, 98, 99>>
 D7 == <<97, 98, 10, 99, 100, 10, 101>>
 D0 == <<>>
+DatasD == {D7}
+D8 == <<10, 97, 98, 10, 10, 99, 100, 101>>
+DatasB == {D7, D8}
 DatasQ == {D0, D4}
 DatasT == {D0, D4, D7}
 DatasX == {D4}
